@@ -5,3 +5,4 @@ import PqVerif.Props.C06
 import PqVerif.Props.C12
 import PqVerif.Props.C13
 import PqVerif.Props.C20
+import PqVerif.Props.C18
